@@ -269,7 +269,7 @@ class QuantumState:
         if isinstance(new_data, list):
             new_rep = MixedGraph(new_data)
         else:
-            new_rep = Graph(new_data)
+            new_rep = Graph(nx.from_numpy_array(new_data))
         return new_rep
 
     def _density_to_stabilizer(self, rep):
@@ -330,7 +330,7 @@ class QuantumState:
             graph_list = rc.stabilizer_to_graph(data_list)
             return MixedGraph(graph_list)
         else:
-            graph_list = rc.stabilizer_to_graph(rep.data)
+            graph_list = rc.stabilizer_to_graph(rep.data.to_stabilizer())
             return Graph(graph_list[0][1])
 
     def _graph_to_density(self, rep):
